@@ -200,7 +200,7 @@ MaskNames(st, names, pm, vals, pobj) ==
        IN MaskNames([st EXCEPT !.pok = SubSeq(st.pok, 1, ix - 1),
                                !.kwo = kwo2,
                                !.src = SPop(@, (IF pm THEN {} ELSE {nm}) \cup (IF st.va = NoP THEN {} ELSE {st.va.n})),
-                               !.va = NoP, !.table = {}, !.consumed = @ \cup {nm}],
+                               !.va = NoP, !.table = SeqNames(SubSeq(st.pok, 1, ix - 1)), !.consumed = @ \cup {nm}],
                     Tail(names), pm, vals, pobj)
     ELSE IF nm \in SeqNames(st.kwo) THEN
        IF pm THEN MaskNames([st EXCEPT !.kwo = KwoPut(@, [KwoGet(st.kwo, nm) EXCEPT !.d = TRUE, !.dv = vals[nm]]),
@@ -213,25 +213,28 @@ MaskNames(st, names, pm, vals, pobj) ==
                               Tail(names), pm, vals, pobj)
     ELSE MaskNames([st EXCEPT !.consumed = @ \cup {nm}], Tail(names), pm, vals, pobj)
 
+(* the positional and named arguments are consumed (and validated) first, the hide flags then remove what is left *)
 MaskS(s, n, names, ha, hk, hva, hvk, pm, vals, pobj) ==
   LET chain == s.pos \o s.pok
       tooMany == n > Len(chain)
-      restPos == IF ha THEN <<>> ELSE IF n >= Len(s.pos) THEN <<>> ELSE SubSeq(s.pos, n + 1, Len(s.pos))
+      restPos0 == IF n >= Len(s.pos) THEN <<>> ELSE SubSeq(s.pos, n + 1, Len(s.pos))
       usedPok == IF n > Len(s.pos) THEN n - Len(s.pos) ELSE 0
-      restPok == IF ha THEN <<>> ELSE IF usedPok >= Len(s.pok) THEN <<>> ELSE SubSeq(s.pok, usedPok + 1, Len(s.pok))
+      restPok0 == IF usedPok >= Len(s.pok) THEN <<>> ELSE SubSeq(s.pok, usedPok + 1, Len(s.pok))
+      restPos == IF ha THEN <<>> ELSE restPos0
+      restPok == IF ha THEN <<>> ELSE restPok0
       consumed0 == IF ha THEN SeqNames(chain) ELSE {chain[x].n : x \in 1..(IF tooMany THEN Len(chain) ELSE n)}
-      failN == ~ha /\ n > 0 /\ tooMany /\ s.va = NoP
+      failN == n > 0 /\ tooMany /\ s.va = NoP
       va1 == IF ha \/ hva THEN NoP ELSE s.va
-      src1 == SPop(s.src, consumed0 \cup (IF (ha \/ hva) /\ s.va # NoP THEN {s.va.n} ELSE {})
-                                   \cup (IF hk THEN SeqNames(restPok) \cup SeqNames(s.kwo) ELSE {}))
-      st0 == [pok |-> IF hk THEN <<>> ELSE restPok, kwo |-> IF hk THEN <<>> ELSE s.kwo, va |-> va1, vk |-> s.vk,
+      src1 == SPop(s.src, consumed0 \cup (IF (ha \/ hva) /\ s.va # NoP THEN {s.va.n} ELSE {}))
+      st0 == [pok |-> restPok, kwo |-> s.kwo, va |-> va1, vk |-> s.vk,
               src |-> src1, table |-> SeqNames(s.pok), consumed |-> consumed0, fail |-> FALSE]
-      st1 == MaskNames(st0, IF hk THEN <<>> ELSE names, pm, vals, pobj)
-      src2 == IF (hk \/ hvk) /\ st1.vk # NoP THEN SPop(st1.src, {st1.vk.n}) ELSE st1.src
+      st1 == MaskNames(st0, names, pm, vals, pobj)
+      st2 == IF hk THEN [st1 EXCEPT !.src = SPop(@, SeqNames(st1.pok) \cup SeqNames(st1.kwo)), !.pok = <<>>, !.kwo = <<>>] ELSE st1
+      src2 == IF (hk \/ hvk) /\ st2.vk # NoP THEN SPop(st2.src, {st2.vk.n}) ELSE st2.src
       depth2 == IF pm THEN [f \in DOMAIN s.depth \cup {pobj} |-> IF f = pobj THEN 0 ELSE s.depth[f] + 1] ELSE s.depth
   IN IF failN \/ st1.fail THEN ValErr
-     ELSE [tag |-> "sig", pos |-> restPos, pok |-> st1.pok, va |-> st1.va, kwo |-> st1.kwo,
-           vk |-> IF hk \/ hvk THEN NoP ELSE st1.vk, src |-> src2, depth |-> depth2]
+     ELSE [tag |-> "sig", pos |-> restPos, pok |-> st2.pok, va |-> st2.va, kwo |-> st2.kwo,
+           vk |-> IF hk \/ hvk THEN NoP ELSE st2.vk, src |-> src2, depth |-> depth2]
 
 NoVals == [x \in {} |-> 0]
 Mask(s, n, names, ha, hk, hva, hvk) == Apply(MaskS(s, n, names, ha, hk, hva, hvk, FALSE, NoVals, "-"))
